@@ -384,3 +384,50 @@ class _SwapIndependent(ast.NodeTransformer):
 
 
 TRANSFORMS["swap_independent"] = _SwapIndependent
+
+
+class _Annotate(ast.NodeTransformer):
+    """inside functions, `x = E` with a single name target is written `x: object = E` (skipped in functions that declare global / nonlocal names)"""
+    def visit_FunctionDef(self, node):
+        self.generic_visit(node)
+        if any(isinstance(x, (ast.Global, ast.Nonlocal)) for x in ast.walk(node)):
+            return node
+
+        class _A(ast.NodeTransformer):
+            def visit_FunctionDef(self, n):
+                return n
+
+            def visit_Lambda(self, n):
+                return n
+
+            def visit_Assign(self, n):
+                if len(n.targets) == 1 and isinstance(n.targets[0], ast.Name):
+                    return ast.copy_location(ast.AnnAssign(target=n.targets[0], annotation=ast.Name(id="object", ctx=ast.Load()), value=n.value, simple=1), n)
+                return n
+        node.body = [_A().visit(s) for s in node.body]
+        return node
+
+
+class _Noops(ast.NodeTransformer):
+    """a `pass` after every statement of every function body block"""
+    def generic_visit(self, node):
+        super().generic_visit(node)
+        if isinstance(node, (ast.ClassDef, ast.Module)):
+            return node
+        for f in ("body", "orelse", "finalbody"):
+            v = getattr(node, f, None)
+            if isinstance(v, list) and v and isinstance(v[0], ast.stmt):
+                out = []
+                for s in v:
+                    out.append(s)
+                    if not isinstance(s, (ast.Return, ast.Raise, ast.Continue, ast.Break)):
+                        out.append(ast.Pass())
+                setattr(node, f, out)
+        if isinstance(node, ast.Try):
+            for h in node.handlers:
+                h.body = [x for s in h.body for x in ((s, ast.Pass()) if not isinstance(s, (ast.Return, ast.Raise, ast.Continue, ast.Break)) else (s,))]
+        return node
+
+
+TRANSFORMS["annotated_assignments"] = _Annotate
+TRANSFORMS["inserted_pass"] = _Noops
